@@ -163,7 +163,19 @@ def run(ctx):
     t = src(cpj)
     ok = "self._pending_jobs.get((job.eval_hash, job.context_hash))" in t and "job.collapse(pending_job)" in t and "return pending_job" in t
     r5.check(ok, f"{m.rel}:Scheduler._check_pending_job:collapse", "a pending twin is not looked up by (eval_hash, context_hash), collapsed onto and returned", m.rel, cpj.lineno)
+    # a collapsed duplicate is driven by the twin's promise, marked cached, and handed to done (result) / reject (error)
     col = m.func("Job.collapse")
-    tc = src(col)
-    ok = "other_job.result_promise.then(then, fail)" in tc and "scheduler.done_job(self, result)" in tc and "scheduler._reject_job_main_thread(self, error)" in tc and tc.count("self.was_cached = True") == 2
-    r5.check(ok, f"{m.rel}:Job.collapse", "a collapsed duplicate does not receive the twin's result and error (marked cached)", m.rel, col.lineno)
+    okreg = any(last_attr(c) == "then" and "result_promise" in src(c) and len(c.args) == 2 for c in calls_in(col, shallow=True))
+    seen_then = seen_fail = False
+    bad_cached = None
+    for kind, trace in results:
+        for i, (hkey, ps, st, notes) in enumerate(trace):
+            if hkey in ("collapse.then", "collapse.fail"):
+                conts = [e[1] for e in ps.events if e[0] == "cont"]
+                if hkey == "collapse.then" and conts == ["done"]:
+                    seen_then = True
+                if hkey == "collapse.fail" and conts == ["reject"]:
+                    seen_fail = True
+                if st.get("job.was_cached") is not True:
+                    bad_cached = hkey
+    r5.check(okreg and seen_then and seen_fail and bad_cached is None, f"{m.rel}:Job.collapse", f"a collapsed duplicate is not handed the twin's result (done) and error (reject) while marked cached (then->done seen: {seen_then}, fail->reject seen: {seen_fail}, not marked cached in: {bad_cached})", m.rel, col.lineno)
